@@ -160,7 +160,7 @@ def main():
     import props
     pid = a.property
     P = props.PROPS[pid]
-    use_mpi = bool(P.get('mpi')) or pid in ('C02', 'C04', 'C06', 'C10', 'C12', 'C16', 'C19', 'C20')
+    use_mpi = bool(P.get('mpi')) or pid in ('C02', 'C03', 'C04', 'C06', 'C10', 'C11', 'C12', 'C16', 'C19', 'C20')
     sanitizer_viol = []
     st = prepare(mpi=use_mpi)
     broken = []           # stages / obligations that no longer check
@@ -249,6 +249,34 @@ def main():
                                        'cases': [dump(list(c_[:4]) + [[]])], 'observed': o[:400]})
         except Stage as e:
             thorough_extra['sanitizer'] = {'build_failed': e.detail[-300:]}
+
+    if cases and st.get('cxx_exe') and cxx_results is not None and not os.environ.get('VERIF_NO_NDEBUG'):
+        # the build configuration as an input: the same sample of cases through a driver compiled with -DNDEBUG (release builds switch
+        # assertions off) must give the observations of the ordinary build, bit for bit
+        try:
+            t1 = time.time()
+            nd = tie.cxx_build('-DNDEBUG' + (' -DVERIF_MPI' if use_mpi else ''), 'ndebug-mpi' if use_mpi else 'ndebug')
+            env = dict(os.environ); env['VERIF_TMP'] = os.path.join(BUILD, 'tmp')
+            ref = {r['case'][0]: r for r in cxx_results}
+            nd_cases = [c_ for c_ in cases if c_[0] in ref and not textcmp.has_ub(ref[c_[0]]['model']) and not (isinstance(ref[c_[0]]['cxx'], list) and ref[c_[0]]['cxx'] and ref[c_[0]]['cxx'][0] in ('crash', 'exception'))]
+            if a.tier != 'thorough' and len(nd_cases) > 120:
+                rng4 = random.Random(seed * 15485863 + int(pid[1:])); nd_cases = rng4.sample(nd_cases, 120)
+            lines = [dump([i, t, cmd, args, []]) for (i, t, cmd, args) in nd_cases]
+            outs = tie.run_driver(nd, lines, env=env, chunk=10, timeout=3000, cpu_limit=300)
+            nd_bad = []
+            for c_, o in zip(nd_cases, outs):
+                try: po = parse(o)
+                except Exception: po = None
+                got = po[1] if isinstance(po, list) and len(po) > 1 else o[:200]
+                if got != ref[c_[0]]['cxx']:
+                    nd_bad.append((c_, got))
+            thorough_extra['ndebug_build'] = {'cases': len(nd_cases), 'differing': len(nd_bad), 'wall_s': round(time.time() - t1, 1)}
+            for c_, got in nd_bad[:3]:
+                d = textcmp.compare(got, ref[c_[0]]['cxx'], FMTS.get(c_[1], FMTS['d'])) if isinstance(got, list) else [str(got)[:200]]
+                sanitizer_viol.append({'what': 'compiled with -DNDEBUG the library behaves differently on this input (NDEBUG build vs ordinary build): %s' % (d[:3],),
+                                       'cases': [dump(list(c_[:4]) + [[]])], 'observed': dump(got)[:400] if isinstance(got, list) else str(got)[:400]})
+        except Stage as e:
+            thorough_extra['ndebug_build'] = {'build_failed': e.detail[-300:]}
 
     # C++-only differential / oracle stage (things the model cannot execute: real engines, real MPI, system calls)
     extra = props.extra_checks(pid, rng, a.tier, st, cov) if st.get('cxx_exe') else []
